@@ -137,8 +137,129 @@ pub fn run(cfg: &RunCfg, out: &Out) {
                 continue;
             }
         }
-        scenario(cfg.scenario_seed(k), k, out);
+        // a third of the scenarios: honest peers on COMPETING branches that prove in different orders and switch branches
+        if k % 3 == 2 {
+            competing(cfg.scenario_seed(k), k, out);
+        } else {
+            scenario(cfg.scenario_seed(k), k, out);
+        }
     }
+}
+
+/// Several honest peers on two competing branches X and Y (fork point a few blocks below the tips, above / at / below last-N): they are
+/// connected and proven in random order, both branches grow by steps of 1..last-N+2 blocks (children: fast path; farther: the proof path
+/// whose request starts from a remembered header), peers switch from one branch to the other, the client restarts. Judged online at every
+/// change of the stored tip (R1-R4: proven, strictly heavier, truthful total difficulty, remembered last-N headers are ancestors of the tip)
+/// and at every restart (R5). No adversary and no convergence judgement here (peer rejection / long forks are C05's and C04's matter).
+fn competing(seed: u64, k: u64, out: &Out) {
+    let mut rng = Rng::new(seed);
+    let (now, base_ts) = time_base();
+    let mut params = gen_params(&mut rng, seed, base_ts);
+    params.tx_density = 0;
+    let mut ccfg = gen_ccfg(&mut rng);
+    ccfg.last_n = *rng.pick(&[2u64, 3, 5, 5, 10]);
+    ccfg.cp_interval = 2000;
+    ccfg.max_outbound = 4;
+    let len = rng.range(ccfg.last_n + 6, 90);
+    let x = Chain::generate(params.clone(), len);
+    let mut w = World::new(x, ccfg.clone(), seed, now);
+    let depth = rng.range(1, ccfg.last_n + 3).min(len - 3);
+    let at = len - 1 - depth;
+    let y_extra = rng.range(1, depth + 3);
+    let y = w.chains[0].fork(at, y_extra, rng.next_u64() | 1);
+    let cy = w.add_chain(y);
+    let n_peers = rng.range(2, 4) as usize;
+    for i in 0..n_peers {
+        let ci = match i {
+            0 => 0,
+            1 => cy,
+            _ => *rng.pick(&[0usize, cy]),
+        };
+        w.add_peer(ci, true);
+    }
+    let desc = json!({"seed": seed, "scenario": k, "family": "competing-branches", "pow": format!("{:?}", params.pow), "len": len, "last_n": ccfg.last_n, "fork_depth": depth, "peers": n_peers});
+    let (td0, h0) = w.c().stored_tip();
+    let mut mon = Mon { out, k, desc: desc.clone(), last_seen: (td0, h0.calc_header_hash()), fabricated: HashMap::new(), last_adv_op: "competing-branches".into(), violated: false, moves: 0 };
+    // connect in random order with a few rounds in between (who proves first decides what is stored)
+    let mut order: Vec<usize> = (0..n_peers).collect();
+    for i in (1..order.len()).rev() {
+        let j = rng.range(0, i as u64) as usize;
+        order.swap(i, j);
+    }
+    for pi in order {
+        w.connect(pi);
+        for _ in 0..rng.range(0, 4) {
+            w.round(&mut mon);
+        }
+        if w.dead {
+            break;
+        }
+    }
+    let steps = rng.range(4, 16);
+    for _ in 0..steps {
+        if w.dead || w.client.is_none() {
+            break;
+        }
+        match rng.below(10) {
+            0 | 1 | 2 => {
+                let ci = *rng.pick(&[0usize, cy]);
+                let n = rng.range(1, ccfg.last_n + 2);
+                // one announcement for the whole step: the new last state is n blocks above the proven one
+                w.chains[ci].grow(n);
+                w.announce(ci);
+                out.cell(&format!("competing|grow|{}", if n == 1 { "child" } else if n <= ccfg.last_n { "within-last-n" } else { "beyond-last-n" }));
+            }
+            3 | 4 | 5 => {
+                // a peer's node reorganizes onto the other branch (it then announces that branch's tip)
+                let pi = rng.pick_idx(n_peers);
+                let to = if w.peers[pi].chain == 0 { cy } else { 0 };
+                let heavier = w.chains[to].td(w.chains[to].tip()) > w.chains[w.peers[pi].chain].td(w.chains[w.peers[pi].chain].tip());
+                w.switch_peer_chain(pi, to);
+                // often the branch moves on right after the switch: the announcement is a non-child above the peer's proven header
+                if rng.chance(1, 2) {
+                    let n = rng.range(1, ccfg.last_n);
+                    w.chains[to].grow(n);
+                    w.announce(to);
+                }
+                out.cell(&format!("competing|switch|to-{}", if heavier { "heavier" } else { "lighter-or-equal" }));
+            }
+            6 => {
+                let before = (w.c().stored_tip(), w.c().storage.get_last_n_headers());
+                if w.restart().is_ok() {
+                    let after = (w.c().stored_tip(), w.c().storage.get_last_n_headers());
+                    out.eval(1);
+                    if before.0 .0 != after.0 .0 || before.0 .1.as_slice() != after.0 .1.as_slice() || before.1 != after.1 {
+                        out.violation("C12.R5", "C12|restart-changes-stored-tip", json!({"scenario": desc}), k);
+                    }
+                    out.cell("competing|restart-reproduces");
+                    w.connect_all();
+                } else {
+                    break;
+                }
+            }
+            7 => {
+                let pi = rng.pick_idx(n_peers);
+                if w.peers[pi].connected {
+                    w.disconnect(pi);
+                } else {
+                    w.connect(pi);
+                }
+            }
+            _ => {}
+        }
+        for _ in 0..rng.range(1, 4) {
+            w.round(&mut mon);
+        }
+    }
+    if let Some((ctx, p)) = w.panics.first() {
+        out.count("competing_aborted_by_panic", 1);
+        out.note(&format!("panic in competing-branches scenario (C04 / C05 / C10 matter): {} {}", ctx, p.message.chars().take(80).collect::<String>()));
+    }
+    out.count("scenarios", 1);
+    out.count("competing_branch_scenarios", 1);
+    out.count("tip_moves_judged", mon.moves);
+    out.count("tip_moves_judged_on_competing_branches", mon.moves);
+    w.close();
 }
 
 fn scenario(seed: u64, k: u64, out: &Out) {
